@@ -180,8 +180,10 @@ func TestVerif_C05_BN254(t *testing.T) {
 					name = fmt.Sprintf("((n-1)/2+%d)G", new(big.Int).Sub(k, halfN))
 				}
 			}
-			var enc [][]byte
-			r.Case(c05Case{Op: "setup-multiple-G1", K: k.String()}, func() error {
+			// computed outside the cases so that a replay of any later case sees the same alphabet
+			var enc, enc2 [][]byte
+			var setupErr error
+			if e := mc.Safely(func() error {
 				for _, bk := range bks {
 					p, err := bk.g1(g1gen)
 					if err != nil {
@@ -189,16 +191,6 @@ func TestVerif_C05_BN254(t *testing.T) {
 					}
 					enc = append(enc, bk.g1bytes(bk.mul(p, k)))
 				}
-				if !bytes.Equal(enc[0], enc[1]) || !bytes.Equal(enc[0], enc[2]) {
-					return fmt.Errorf("%s*G: gnark %x cloudflare %x google %x", k, enc[0], enc[1], enc[2])
-				}
-				return nil
-			})
-			if len(enc) == 3 {
-				g1pts = append(g1pts, c05Pt{name, enc[0], true, k})
-			}
-			var enc2 [][]byte
-			r.Case(c05Case{Op: "setup-multiple-G2", K: k.String()}, func() error {
 				cg := new(cf.G2)
 				if _, err := cg.Unmarshal(g2gen); err != nil {
 					return fmt.Errorf("cloudflare rejects the G2 generator: %v", err)
@@ -213,12 +205,24 @@ func TestVerif_C05_BN254(t *testing.T) {
 				ga.ScalarMultiplication(&g2, k)
 				x1, x0, y1, y0 := ga.X.A1.Bytes(), ga.X.A0.Bytes(), ga.Y.A1.Bytes(), ga.Y.A0.Bytes()
 				enc2 = append(enc2, c05Cat(x1[:], x0[:], y1[:], y0[:]))
+				return nil
+			}); e != nil {
+				setupErr = e
+			}
+			r.Case(c05Case{Op: "setup-multiples", K: k.String()}, func() error {
+				if setupErr != nil {
+					return setupErr
+				}
+				if !bytes.Equal(enc[0], enc[1]) || !bytes.Equal(enc[0], enc[2]) {
+					return fmt.Errorf("%s*G: gnark %x cloudflare %x google %x", k, enc[0], enc[1], enc[2])
+				}
 				if !bytes.Equal(enc2[0], enc2[1]) || !bytes.Equal(enc2[0], enc2[2]) {
 					return fmt.Errorf("%s*H: cloudflare %x google %x gnark-crypto %x", k, enc2[0], enc2[1], enc2[2])
 				}
 				return nil
 			})
-			if len(enc2) == 3 {
+			if setupErr == nil && len(enc) == 3 && len(enc2) == 3 {
+				g1pts = append(g1pts, c05Pt{name, enc[0], true, k})
 				g2pts = append(g2pts, c05Pt{strings1(name), enc2[0], true, k})
 			}
 		}
